@@ -1,3 +1,5 @@
+import StrandModel.Generated.Tags
+import StrandModel.Model.Generators
 import StrandModel.Lemmas.Transcript
 import StrandModel.Lemmas.NatLawful
 import StrandModel.Props.C15
@@ -533,4 +535,39 @@ example : ∃ o' : Ops Nat Nat, ∀ g y t ctx g' y' t' ctx',
   ⟨{ natOps P23 .bigint with hashToExp := fun _ => 0 }, fun _ _ _ _ _ _ _ _ => rfl⟩
 
 end examples
+
+/-! ### §6 The tags are the ones the source uses NOW (regenerated from /repo on every run)
+
+`Generated/Tags.lean` is rewritten by the translator from the string literals of
+`schnorr_proof_challenge`, `cp_proof_challenge`, the eight context constructors,
+`shuffle_proof_us`, `shuffle_proof_challenge` and `generators_fips`, in source order.  A tag that
+is renamed, dropped, added or reordered in the source breaks one of these kernel-checked facts. -/
+
+theorem schnorr_tags_from_source : schnorrKeys = Generated.schnorrTags.map tag := by decide
+theorem cp_tags_from_source : cpKeys = Generated.cpTags.map tag := by decide
+theorem ctx_label_tags_from_source :
+    ctxLabelKeys = Generated.schnorrProveCtxTags.map tag ∧
+    ctxLabelKeys = Generated.schnorrVerifyCtxTags.map tag ∧
+    ctxLabelKeys = Generated.cpProveCtxTags.map tag ∧
+    ctxLabelKeys = Generated.cpVerifyCtxTags.map tag := by decide
+theorem ctx_mhr_tags_from_source :
+    ctxMhrKeys = Generated.popkCtxTags.map tag ∧
+    ctxMhrKeys = Generated.popkVerifyCtxTags.map tag ∧
+    ctxMhrKeys = Generated.decryptionProofCtxTags.map tag ∧
+    ctxMhrKeys = Generated.verifyDecryptionCtxTags.map tag := by decide
+theorem shuffle_us_tags_from_source :
+    usPrefixKeys ++ usInputKeys = Generated.shuffleUsTags.map tag := by decide
+theorem shuffle_challenge_tags_from_source :
+    shuffleKeys = Generated.shuffleChallengeTags.map tag := by decide
+/-- prover and verifier of every sigma proof build the SAME context key set -/
+theorem prover_verifier_context_tags_agree :
+    Generated.schnorrProveCtxTags = Generated.schnorrVerifyCtxTags ∧
+    Generated.cpProveCtxTags = Generated.cpVerifyCtxTags ∧
+    Generated.popkCtxTags = Generated.popkVerifyCtxTags ∧
+    Generated.decryptionProofCtxTags = Generated.verifyDecryptionCtxTags := by decide
+/-- the generator derivation's domain-separation tag -/
+theorem generator_tag_from_source (P : Params) (fl : Flavour) (seed : Bytes) (i : Nat) :
+    genAt P fl seed i = genLoop P fl i genFuel (seed ++ asciiBytes Generated.generatorTagBigint) 0 ∧
+    Generated.generatorTagBigint = Generated.generatorTagMalachite := ⟨rfl, by decide⟩
+
 end Strand.C16
